@@ -38,7 +38,7 @@ type stack struct {
 	nums    []int // fractions of 32 per partition
 	binLim  func(i int) int
 	keys    []string
-	unknown bool // lookup: has an unknown bucket
+	unknown bool     // lookup: has an unknown bucket
 	direct  []func() // accessors of the partition objects themselves (what a gauge supplier or the owner of the object calls)
 }
 
